@@ -197,7 +197,36 @@ def illtype(rnd, prog):
     assignments to things that cannot be assigned, misuse of empty values, arity and flavour errors."""
     from .. import shrink
     prog = ('prog', prog[1], (('func', 'empty', 'nothing', (), ('block', ())),) + prog[2])
-    for _ in range(rnd.randrange(1, 4)):
+    if rnd.random() < 0.2:
+        # damage at program level: entry point and global initialisers
+        funcs = list(prog[2])
+        k = next((i for i, f in enumerate(funcs) if f[2] == '@is_you'), None)
+        c = rnd.randrange(10)
+        glob = list(prog[1])
+        if k is not None and c == 0:
+            funcs[k] = ('func',) + (funcs[k][1], '@main') + funcs[k][3:]
+        elif k is not None and c == 1:
+            funcs.append(('func', 'empty', '@is_you', (('int', 'dup'),), ('block', ())))
+        elif k is not None and c == 2:
+            funcs[k] = ('func', 'int', '@is_you', funcs[k][3], ('block', funcs[k][4][1] + (('ret', ('int', 0)),)))
+        elif k is not None and c == 3:
+            extra = rnd.choice([(('bool', 'zb'),), ((('arrt', 'bool', False), 'zb'),), ((('arrt', 'string', False), 'zs'),),
+                                ((('arrt', 'int', False), 'za'), (('arrt', 'byte', True), 'zc'))])
+            funcs[k] = ('func', funcs[k][1], funcs[k][2], tuple(p for p in funcs[k][3] if p[0] in ('int', 'byte', 'string')) + extra, funcs[k][4])
+        elif c == 4:
+            glob.append(('decl', 'int', 'zg', ('call', 'nothing', ()), False))
+        elif c == 5:
+            glob.append(('decl', 'int', 'zg', ('bin', '+', ('call', 'write', (('int', 1),)), ('int', 1)), False))
+        elif c == 6:
+            glob.append(('dyn', 'int', 'zbig', ('int', rnd.choice((40000, 10 ** 9, 2 ** 62, -1)))))
+        elif c == 7:
+            glob += [('decl', 'int', 'zn', ('int', 3), False), ('dyn', 'byte', 'zv', ('bin', '*', ('var', 'zn'), ('int', 2)))]
+        elif c == 8:
+            glob.append(('decl', ('arrt', 'int', False), 'zarr', ('arr', (('int', 1), ('call', 'nothing', ()))), True))
+        else:
+            glob += [('decl', 'int', 'zd', ('int', 1), False), ('decl', 'int', 'zd', ('int', 2), False)]
+        prog = ('prog', tuple(glob), tuple(funcs))
+    for _ in range(rnd.randrange(0 if prog[1] else 1, 4)):
         if rnd.random() < 0.5:
             paths = list(shrink._expr_paths(prog))
             if paths:
